@@ -4,7 +4,7 @@
    indefinite lengths on constructed TLVs, long-form lengths, SET OF in any
    order — and is what the C decoder is compared with on valid encodings (C03). *)
 From Coq Require Import ZArith List Bool.
-From A1 Require Import Base.Bytes Leaf.IntegerConv Leaf.BerTL Rt.Types.
+From A1 Require Import Base.Bytes Leaf.IntegerConv Leaf.BerTL Rt.Types Rt.Comb.
 Import ListNotations.
 Local Open Scope Z_scope.
 
@@ -36,13 +36,6 @@ Fixpoint insert_sorted (x : list Z) (l : list (list Z)) : list (list Z) :=
 Definition sort_encodings (l : list (list Z)) : list (list Z) :=
   fold_right insert_sorted [] l.
 
-Fixpoint option_all {A} (l : list (option A)) : option (list A) :=
-  match l with
-  | [] => Some []
-  | None :: _ => None
-  | Some a :: tl => match option_all tl with Some r => Some (a :: r) | None => None end
-  end.
-
 Fixpoint der (t : ty) (v : val) {struct t} : option (list Z) :=
   match t, v with
   | TBool tg, VBool b => Some (tlv tg false [if b then 255 else 0])
@@ -50,16 +43,7 @@ Fixpoint der (t : ty) (v : val) {struct t} : option (list Z) :=
   | TInt tg _, VInt z => Some (tlv tg false (imax2INTEGER z))
   | TOct tg _, VOct bs => Some (tlv tg false bs)
   | TSeq tg ms, VSeq vs =>
-      match (fix go (ms : list ty) (vs : list val) : option (list Z) :=
-               match ms, vs with
-               | [], [] => Some []
-               | m :: ms', v :: vs' =>
-                   match der m v, go ms' vs' with
-                   | Some a, Some b => Some (a ++ b)
-                   | _, _ => None
-                   end
-               | _, _ => None
-               end) ms vs with
+      match enc_members der ms vs with
       | Some c => Some (tlv tg true c)
       | None => None
       end
@@ -73,13 +57,7 @@ Fixpoint der (t : ty) (v : val) {struct t} : option (list Z) :=
       | Some cs => Some (tlv tg true (concat (sort_encodings cs)))
       | None => None
       end
-  | TChoice alts, VChoice i v =>
-      (fix pick (alts : list ty) (i : nat) : option (list Z) :=
-         match alts, i with
-         | a :: _, O => der a v
-         | _ :: r, S j => pick r j
-         | [], _ => None
-         end) alts i
+  | TChoice alts, VChoice i v' => enc_alt der v' alts i
   | TTag tg t', _ =>
       match der t' v with
       | Some c => Some (tlv tg true c)
@@ -172,57 +150,18 @@ Fixpoint ber_dec (t : ty) (bs : list Z) {struct t} : option (val * list Z) :=
   | TOct tg _ =>
       in_prim tg bs (fun c => Some (VOct c))
   | TSeq tg ms =>
-      match in_cons tg bs
-              ((fix go (ms : list ty) (bs : list Z) : option (list val * list Z) :=
-                  match ms with
-                  | [] => Some ([], bs)
-                  | m :: ms' =>
-                      match ber_dec m bs with
-                      | Some (v, r) =>
-                          match go ms' r with
-                          | Some (vs, r') => Some (v :: vs, r')
-                          | None => None
-                          end
-                      | None => None
-                      end
-                  end) ms) with
+      match in_cons tg bs (dec_members ber_dec ms) with
       | Some (vs, r) => Some (VSeq vs, r)
       | None => None
       end
   | TSeqOf tg _ e | TSetOf tg _ e =>
-      match in_cons tg bs
-              (fun c =>
-                 (fix loop (fuel : nat) (bs : list Z) : option (list val * list Z) :=
-                    match fuel with
-                    | O => None
-                    | S f =>
-                        if at_end bs then Some ([], bs)
-                        else match ber_dec e bs with
-                             | Some (v, r) =>
-                                 match loop f r with
-                                 | Some (vs, r') => Some (v :: vs, r')
-                                 | None => None
-                                 end
-                             | None => None
-                             end
-                    end) (S (length c)) c) with
+      match in_cons tg bs (fun c => dec_until (ber_dec e) at_end (S (length c)) c) with
       | Some (vs, r) => Some (VList vs, r)
       | None => None
       end
   | TChoice alts =>
       match peek_tag bs with
-      | Some tg =>
-          (fix pick (alts : list ty) (i : nat) : option (val * list Z) :=
-             match alts with
-             | [] => None
-             | a :: r =>
-                 if tag_in tg (first_tags a) then
-                   match ber_dec a bs with
-                   | Some (v, rest) => Some (VChoice i v, rest)
-                   | None => None
-                   end
-                 else pick r (S i)
-             end) alts O
+      | Some tg => dec_alt ber_dec (fun _ a => tag_in tg (first_tags a)) bs alts O
       | None => None
       end
   | TTag tg t' => in_cons tg bs (ber_dec t')
